@@ -11,10 +11,32 @@ pub struct Shrunk {
     pub trace: Trace,
     pub violation: Violation,
     pub candidates: usize,
+    /// minimisation stopped because this process has leaked too much memory (terms are never
+    /// freed, and a trace with a million-term ballast leaks 200 MB per candidate); `budget_left`
+    /// candidates remain for a fresh process to spend
+    pub mem_stop: bool,
+    pub budget_left: usize,
+}
+
+/// resident set size of this process in kB (0 if unknown)
+pub fn resident_kb() -> u64 {
+    std::fs::read_to_string("/proc/self/statm")
+        .ok()
+        .and_then(|t| t.split_whitespace().nth(1).and_then(|x| x.parse::<u64>().ok()))
+        .map(|pages| pages * 4)
+        .unwrap_or(0)
+}
+
+thread_local! {
+    static MEM_STOP: std::cell::Cell<bool> = const { std::cell::Cell::new(false) };
 }
 
 fn fails(tr: &Trace, props: u32, prop: Prop, rule: &str, budget: &mut usize) -> Option<Violation> {
-    if *budget == 0 {
+    if *budget == 0 || MEM_STOP.with(|m| m.get()) {
+        return None;
+    }
+    if resident_kb() > 2_500_000 {
+        MEM_STOP.with(|m| m.set(true));
         return None;
     }
     *budget -= 1;
@@ -27,6 +49,7 @@ fn fails(tr: &Trace, props: u32, prop: Prop, rule: &str, budget: &mut usize) -> 
 
 pub fn minimise(trace: &Trace, props: u32, v0: &Violation, max_candidates: usize) -> Shrunk {
     let mut budget = max_candidates;
+    MEM_STOP.with(|m| m.set(false));
     let prop = v0.prop;
     let rule = v0.rule;
     let mut best = trace.clone();
@@ -100,11 +123,11 @@ pub fn minimise(trace: &Trace, props: u32, v0: &Violation, max_candidates: usize
             } else {
                 i += chunk;
             }
-            if budget == 0 {
+            if budget == 0 || MEM_STOP.with(|m| m.get()) {
                 break;
             }
         }
-        if budget == 0 {
+        if budget == 0 || MEM_STOP.with(|m| m.get()) {
             break;
         }
         if chunk == 1 {
@@ -235,9 +258,12 @@ pub fn minimise(trace: &Trace, props: u32, v0: &Violation, max_candidates: usize
             i += 1;
         }
     }
+    let mem_stop = MEM_STOP.with(|m| m.get());
     Shrunk {
         trace: best,
         violation: bestv,
         candidates: max_candidates - budget,
+        mem_stop,
+        budget_left: budget,
     }
 }
